@@ -300,7 +300,8 @@ func polyEval(coefs []*big.Float, x *big.Float) *big.Float {
 }
 
 // erfcxCF: erfc(x) e^{x^2} for x >= 1 by the Laplace continued fraction
-//   sqrt(pi) erfcx(x) = 1 / (x + (1/2) / (x + 1 / (x + (3/2) / (x + 2 / (x + ...))))), evaluated bottom-up with 4000 terms.
+//
+//	sqrt(pi) erfcx(x) = 1 / (x + (1/2) / (x + 1 / (x + (3/2) / (x + 2 / (x + ...))))), evaluated bottom-up with 4000 terms.
 func erfcxCF(x *big.Float) *big.Float {
 	t := new(big.Float).SetPrec(400).Set(x)
 	for k := 4000; k >= 1; k-- {
